@@ -12,7 +12,7 @@ use crate::refs::wrap::GzFields;
 pub const INFO: CheckInfo = CheckInfo {
     prop: "C16",
     level: "model_checking",
-    rule: "explicit enumeration of ALL programs up to a depth over the exported entry points with small argument domains, executed in lock-step on libz-rs-sys and on zlib-ng 2.3.3 (R6): compression side = C06's 47-operation alphabet incl. illegal init parameters (level -2/10, method 7, windowBits 7/16/32/47, memLevel 0/10, strategy 5/-1) and deflatePrime at any point; decompression side = {inflate (5 flush values x {all input, 1 byte, none} x {ample, 1, 0 bytes of room}), inflatePrime ((0,0),(3,5),(16,0x1234),(16,-1),(17,0),(-1,0)), inflateSync, inflateSyncPoint, inflateValidate(0/1), inflateUndermine(1/-1), inflateResetKeep, inflateReset, inflateReset2 (-15,31,47,7,0), inflateGetHeader, inflateSetDictionary (right/wrong), inflateGetDictionary, inflateCopy (continue on copy / end copy), inflateCodesUsed, inflateEnd} after inflateInit2 over {15,-15,31,47,0,-8,8,7,16,48,-16} on five data sets (valid zlib, valid gzip with header fields, raw, corrupt, zlib with FDICT, empty); one-shot helpers compress/compress2/uncompress/uncompress2 on size lattices; NULL stream / NULL buffer arguments where zlib defines the result. After every call: same return code, same input consumed, same output bytes produced; the process must never terminate. zlib-ng is run first in a forked child (pre-screen): programs on which the reference itself crashes are counted as skipped_ng_ub. Not compared (as the property lists): totals after a dictionary request, inflateMark, dictionary length, message texts, inflateUndermine's own status, deflatePending/deflateBound values.",
+    rule: "explicit enumeration of ALL programs up to a depth over the exported entry points with small argument domains, executed in lock-step on libz-rs-sys and on zlib-ng 2.3.3 (R6): compression side = C06's 47-operation alphabet incl. illegal init parameters (level -2/10, method 7, windowBits 7/16/32/47, memLevel 0/10, strategy 5/-1) and deflatePrime at any point; decompression side = {inflate (5 flush values x {all input, 1 byte, none} x {ample, 1, 0 bytes of room}), inflatePrime ((0,0),(3,5),(16,0x1234),(16,-1),(17,0),(-1,0)), inflateSync, inflateSyncPoint, inflateValidate(0/1), inflateUndermine(1/-1), inflateResetKeep, inflateReset, inflateReset2 (-15,31,47,7,0), inflateGetHeader, inflateSetDictionary (right/wrong), inflateGetDictionary, inflateCopy (continue on copy / end copy), inflateCodesUsed, inflateEnd} after inflateInit2 over {15,-15,31,47,0,-8,8,7,16,48,-16} on five data sets (valid zlib, valid gzip with header fields, raw, corrupt, zlib with FDICT, empty); one-shot helpers compress/compress2/uncompress/uncompress2 on size lattices; NULL stream / NULL buffer arguments where zlib defines the result. After every call: same return code, same input consumed, same output bytes produced; the process must never terminate. zlib-ng is run first in a forked child (pre-screen): programs on which the reference itself crashes are counted as skipped_ng_ub. Family params-rooms: deflateInit2 (10 levels x 5 strategies) ; deflate (5 sizes, no flush / sync flush) ; deflateParams (6 new settings) with 12 output rooms (0..=9, 64, ample) x {0, 5} new input bytes ; deflate(Z_FINISH), every call compared. Not compared (as the property lists): totals after a dictionary request, inflateMark, dictionary length, message texts, inflateUndermine's own status, deflatePending/deflateBound values.",
     assumptions: &["zlib-ng 2.3.3 in compat mode is the reference", "decoding data whose back-references exceed the window announced to inflateInit2 is excluded (zlib-ng's small window makes its own verdict depend on chunking; zlib-rs always keeps 32 KiB, see C03)", "argument values outside the enumerated domains and deeper programs are not covered"],
     bound_quick: "compression: depth 3 over the full alphabet on 3 configs, depth 2 on 7 + all illegal configs depth 2; decompression: depth 3 over a 30-operation alphabet on 6 data sets x 3 init modes, depth 2 on the rest",
     bound_thorough: "compression depth 3 everywhere / depth 4 reduced alphabet; decompression depth 4 on the reduced alphabet",
@@ -554,13 +554,13 @@ fn deflate_side(ctx: &mut Ctx, env: &OpEnv) {
     }
 }
 
-struct DataSet {
-    name: &'static str,
-    bytes: Vec<u8>,
-    dict: Vec<u8>,
+pub struct DataSet {
+    pub name: &'static str,
+    pub bytes: Vec<u8>,
+    pub dict: Vec<u8>,
 }
 
-fn datasets() -> Vec<DataSet> {
+pub fn datasets() -> Vec<DataSet> {
     let env = Env::new();
     let plain = text(4, 400);
     let mk = |wrap: Wrap, gz: Option<&GzFields>, dict: Option<&[u8]>| -> Vec<u8> {
@@ -994,9 +994,99 @@ fn init_matrix(ctx: &mut Ctx) {
     }
 }
 
+/// deflateInit2 ; deflate(n bytes) ; deflateParams with `room` bytes of output space and `left` bytes of new input ;
+/// deflate(Z_FINISH): (status, input consumed, output bytes) of every call
+unsafe fn params_prog<Zx: Z>(cfg: (i32, i32), n: usize, flush0: i32, new: (i32, i32), room: usize, left: usize, data: &[u8], ain: &Arena, aout: &Arena) -> Result<Vec<(i32, u32, Vec<u8>)>, String> {
+    let mut s = Strm::plain();
+    let r = Zx::deflateInit2_(s.p(), cfg.0, 8, -15, 8, cfg.1, Zx::zlibVersion(), STREAM_SIZE);
+    if r != Z_OK {
+        return Err(format!("{}: deflateInit2 returned {}", Zx::NAME, rc_name(r)));
+    }
+    let mut log = vec![];
+    let mut pending: Vec<u8> = data[..n].to_vec();
+    let mut src = n;
+    for step in 0..3 {
+        if step == 1 {
+            pending.extend_from_slice(&data[src..src + left]);
+            src += left;
+        }
+        if step == 2 {
+            pending.extend_from_slice(&data[src..src + 100]);
+            src += 100;
+        }
+        let room_n = if step == 1 { room } else { 16384 };
+        let pin = ain.put(&pending, true);
+        let pout = aout.at_end(room_n);
+        s.z.next_in = pin;
+        s.z.avail_in = pending.len() as u32;
+        s.z.next_out = pout;
+        s.z.avail_out = room_n as u32;
+        let ret = match step {
+            0 => Zx::deflate(s.p(), flush0),
+            1 => Zx::deflateParams(s.p(), new.0, new.1),
+            _ => Zx::deflate(s.p(), Z_FINISH),
+        };
+        let din = (s.z.next_in as usize).wrapping_sub(pin as usize);
+        let dout = (s.z.next_out as usize).wrapping_sub(pout as usize);
+        if din > pending.len() || dout > room_n || s.z.avail_in as usize != pending.len() - din || s.z.avail_out as usize != room_n - dout {
+            Zx::deflateEnd(s.p());
+            return Err(format!("{}: call {step}: cursors left their buffers (consumed {din} of {}, produced {dout} of {room_n})", Zx::NAME, pending.len()));
+        }
+        log.push((ret, din as u32, std::slice::from_raw_parts(pout, dout).to_vec()));
+        pending.drain(..din);
+    }
+    Zx::deflateEnd(s.p());
+    Ok(log)
+}
+
+/// deflateParams in every situation of buffered data x output space: the levels/strategies that leave data buffered
+/// without lookahead (stored, Huffman-only, RLE) as well as the matchers, after a call that did or did not flush,
+/// with 0..=9 and ample bytes of room and with or without new input
+fn params_rooms(ctx: &mut Ctx) {
+    let ain = Arena::new(1 << 16);
+    let aout = Arena::new(1 << 16);
+    let data = text(17, 8000);
+    let quick = ctx.quick();
+    for level in 0..=9 {
+        for st in 0..=4 {
+            for n in [0usize, 1, 40, 300, 5000] {
+                for flush0 in [Z_NO_FLUSH, Z_SYNC_FLUSH] {
+                    for new in [(0, 0), (1, 0), (6, 0), (9, 2), (level, st), (level, (st + 1) % 5)] {
+                        for room in [0usize, 1, 2, 3, 4, 5, 6, 7, 8, 9, 64, 16384] {
+                            for left in [0usize, 5] {
+                                if quick && (room + level as usize + n) % 2 == 1 && room > 1 && room < 64 {
+                                    continue;
+                                }
+                                ctx.case(
+                                    "params-rooms",
+                                    || format!("deflateInit2(level={level}, raw, strategy={st}) ; deflate({}, {n} bytes) ; deflateParams({}, {}) with avail_in={left} avail_out={room} ; deflate(Z_FINISH, +100 bytes)", if flush0 == Z_NO_FLUSH { "Z_NO_FLUSH" } else { "Z_SYNC_FLUSH" }, new.0, new.1),
+                                    |c| unsafe {
+                                        c.exec();
+                                        let a = params_prog::<Rs>((level, st), n, flush0, new, room, left, &data, &ain, &aout)?;
+                                        let b = params_prog::<Ng>((level, st), n, flush0, new, room, left, &data, &ain, &aout)?;
+                                        for (k, (x, y)) in a.iter().zip(b.iter()).enumerate() {
+                                            if x != y {
+                                                return Err(format!("call {k} ({}): zlib-rs returns {} consumed {} produced {} bytes, zlib-ng returns {} consumed {} produced {} bytes{}", ["deflate", "deflateParams", "deflate(Z_FINISH)"][k], rc_name(x.0), x.1, x.2.len(), rc_name(y.0), y.1, y.2.len(), if x.2 != y.2 && x.2.len() == y.2.len() { " (bytes differ)" } else { "" }));
+                                            }
+                                        }
+                                        c.outcome(mix(a[1].0 as u64 ^ (a[1].2.len() as u64) << 8, hash_bytes(&a[2].2)));
+                                        c.validated();
+                                        Ok(())
+                                    },
+                                );
+                            }
+                        }
+                    }
+                }
+            }
+        }
+    }
+}
+
 pub fn run(ctx: &mut Ctx) {
     let env = OpEnv::new();
     init_matrix(ctx);
+    params_rooms(ctx);
     deflate_side(ctx, &env);
     inflate_side(ctx);
     one_shots(ctx);
